@@ -370,10 +370,10 @@ Definition graft_one (h : heap) (i : nat) (old : nat * string * panel * list nat
 (* (patched discipline only) value links that cross the merged node's boundary live in the parent's scope:
    an output's receiver among the parent's channels is given to the fresh channel, a parent channel whose
    receiver is the old channel is pointed at the fresh one (both through the value_receiver setter) *)
-(* the code re-points the parent's channel through the value_receiver SETTER, which pushes the parent's current
-   value into the fresh channel (known finding C10-relink-pushes-parent-value); [false] = plain re-pointing, the
-   follow-up repair (build/c10_fix2.diff) *)
-Definition RELINK_PUSH : bool := true.
+(* the code re-points the parent's channel by plain assignment of _value_receiver ([false], since build/c10_fix2.diff);
+   [true] = through the value_receiver SETTER, which pushed the parent's current value into what the returned node
+   shows (the regression stays expressible) *)
+Definition RELINK_PUSH : bool := false.
 
 Definition relink_one (h : heap) (i : nat) (old : nat * string * panel * list nat) : heap :=
   match old with
